@@ -171,6 +171,46 @@ def pickHandlers (registered : List Nat) (resumes : Nat → Bool) : List Nat →
         if active.contains r then (h.hid, .alreadyActive) :: pickHandlers registered resumes active hs
         else (h.hid, .restart r) :: pickHandlers registered resumes (if resumes r then r :: active else active) hs
 
+/-! ### the idle marker of a handler row (`idle_release_runtime.py`), as far as a restart depends on it
+
+`WorkflowServer` always puts `IdleReleaseDecorator` around `PersistenceDecorator`, and the start query
+reads the marker it maintains (`is_idle=False` = `idle_since IS NULL`).  Memory and SQLite store calls
+never yield, so each of the following is one step (the interleavings with stores that suspend are
+properties C26 / C36, model `Lifecycle`):
+
+* `idleAnnounced` — `_IdleReleaseInternalRunAdapter.write_to_event_stream(WorkflowIdleEvent)`:
+  `update_handler_status(idle_since=now)` before the event is published;
+* `sendDone` — `IdleReleaseExternalRunAdapter.send_event` has returned: under the reload lock, a run
+  that is in memory gets `update_handler_status(idle_since=None)`, a released one is reloaded by
+  `_ensure_active_run_locked` (`context_from_ticks`, `workflow.run`, `_active_run_ids.add`,
+  `update_handler_status(idle_since=None)`); then the tick is put into the run's mailbox;
+* `released` — `_release_idle_handler` went through (marker set, `idle_timeout` elapsed, run in memory);
+* `processStop` — the process stops; the next one's `_on_server_start` selects the row iff it is not idle. -/
+
+inductive RowEv | idleAnnounced | sendDone | released | processStop
+deriving DecidableEq, Repr
+
+/-- `idle` = the row's `idle_since` is set; `inMemory` = `run_id ∈ IdleReleaseDecorator._active_run_ids` -/
+structure RowMark where
+  idle : Bool := false
+  inMemory : Bool := true
+deriving DecidableEq, Repr
+
+def RowMark.step (m : RowMark) : RowEv → RowMark
+  | .idleAnnounced => { m with idle := true }
+  | .sendDone => { idle := false, inMemory := true }
+  | .released => if m.idle && m.inMemory then { m with inMemory := false } else m
+  | .processStop => { m with inMemory := !m.idle }
+
+def RowMark.run (m : RowMark) (evs : List RowEv) : RowMark := evs.foldl RowMark.step m
+
+/-- one handler row of `_on_server_start` on the full server stack: a row whose idle marker is set is
+not in the result of the start query, so nothing is read, written or started for it (it is reloaded
+by the next `send_event`); any other running row is `restartRun` -/
+def restartHandler (idle : Bool) (cfg : Cfg) (pol : Policy) (legacy : Option State) (ticks : List Tick) (now0 : Int)
+    (clk : Nat → Int) (nowR : Int) (mkStart : Option Ev) (timeout : Option Nat) : Decision :=
+  if idle then .skip else restartRun cfg pol legacy ticks now0 clk nowR mkStart timeout
+
 /-! ### what of a live runner is volatile -/
 
 /-- events of the invocations a step still owes: queued and in progress -/
